@@ -9,9 +9,14 @@ C16 as an executable predicate over an observation of one set-up run, written fr
    and the data of every answered request is available."
 
 A kind counts as answered when its response was handled before `sensors + retries x timeout`.
-"The data of every answered request is available" is read with the same proviso as the clause
-before it: for the kinds whose handler needs product information (`dep`), only when product
-information was among the answers.
+
+`spec` reads "the data of every answered request is available" with the same proviso as the clause
+about the failed list: for the kinds whose handler needs product information (`dep`), only when
+product information was among the answers.  That proviso is NOT in the statement: `specFull` adds
+the clause as written.  The code does not satisfy it (open finding F11: with the product request
+unanswered on every attempt the handlers of answered ecoMAX / mixer parameters wait for ever in
+`await self.get("product")`, the data never becomes available) — `Props/C16`: `holds` for `spec`,
+`holds_full_false` and `full_fails_exactly_when` for `specFull`.
 -/
 namespace PlumVerif.C16
 open PlumVerif.Setup
@@ -30,18 +35,34 @@ def answered (c : Cfg) (o : Obs) (k : Nat) : Bool :=
   | some a => decide (a < o.t0 + c.R * c.T)
   | none => false
 
+def nodupB : List Nat → Bool
+  | [] => true
+  | a :: l => !l.contains a && nodupB l
+
 def spec (c : Cfg) (o : Obs) : Bool :=
   match o.loadedAt with
   | none => !o.complete                                               -- set-up always completes …
   | some t =>
     decide (t ≤ o.t0 + c.R * c.T)                                     -- … within retries x timeout
     && o.errors.all (fun k => decide (k < c.n))
+    && nodupB o.errors                                                  -- a kind is listed once
     && (kinds c).all (fun k =>
       (answered c o k || o.errors.contains k)                         -- every unanswered kind is listed
       && (!(answered c o c.product && answered c o k) || !o.errors.contains k)  -- no answered kind, if product answered
       && (answered c o k || o.tx.getD k 0 == c.R)                     -- unanswered: transmitted `retries` times
       && (!(answered c o k && (!c.dep k || answered c o c.product)) || o.present.getD k false))  -- data available
 
+/-- the last clause as written: the data of EVERY answered request is available (no proviso) -/
+def literalData (c : Cfg) (o : Obs) : Bool :=
+  (kinds c).all (fun k => !answered c o k || o.present.getD k false)
+
+/-- the statement read literally -/
+def specFull (c : Cfg) (o : Obs) : Bool :=
+  spec c o && (match o.loadedAt with | none => true | some _ => literalData c o)
+
+/-- the input class of finding F11: product information unanswered, a kind whose handler waits for it answered -/
+def f11Input (c : Cfg) (o : Obs) : Bool :=
+  !answered c o c.product && (kinds c).any (fun k => c.dep k && answered c o k)
 
 /-! ### the observation of a model run (what the harness records of an implementation run) -/
 
